@@ -1411,6 +1411,9 @@ class Symex:
             return getattr(obj, attr)
         if isinstance(obj, int) and attr in ("numerator", "denominator", "real"):
             return getattr(obj, attr)
+        if is_num(obj) and attr in _NUMBER_FLAGS:
+            # python numbers stand for sympy numbers (cf. Rational -> Fraction): their assumption flags
+            return _NUMBER_FLAGS[attr](obj)
         if isinstance(obj, Func) and attr == "__name__":
             return getattr(obj.node, "name", "<lambda>")
         if hasattr(obj, "sx_getattr"):
@@ -2498,6 +2501,13 @@ def _walk_noscope(fn):
 _BIN = {ast.Add: operator.add, ast.Sub: operator.sub, ast.Mult: operator.mul, ast.Mod: operator.mod,
         ast.FloorDiv: operator.floordiv, ast.Pow: operator.pow, ast.BitAnd: operator.and_, ast.BitOr: operator.or_,
         ast.BitXor: operator.xor, ast.LShift: operator.lshift, ast.RShift: operator.rshift}
+
+_NUMBER_FLAGS = {
+    "is_number": lambda v: True, "is_Number": lambda v: True, "is_zero": lambda v: v == 0, "is_positive": lambda v: v > 0,
+    "is_negative": lambda v: v < 0, "is_Integer": lambda v: isinstance(v, int), "is_integer": lambda v: Fraction(v).denominator == 1,
+    "is_Rational": lambda v: True, "is_Atom": lambda v: True, "is_Add": lambda v: False, "is_Mul": lambda v: False,
+    "is_Pow": lambda v: False, "is_Symbol": lambda v: False, "args": lambda v: (),
+}
 
 _BUILTIN_CONST = {"True": True, "False": False, "None": None}
 _SYMPY_NUM = {"S.One": 1, "S.Zero": 0, "S.NegativeOne": -1, "S.Half": Fraction(1, 2)}
